@@ -9,7 +9,7 @@ for name in sorted(os.listdir('/verif/seeded')):
     d=os.path.join('/verif/seeded',name)
     if not os.path.exists(os.path.join(d,'meta.json')): continue
     if only and name not in only: continue
-    pid=name.split('-')[0]
+    pid=name[:3]
     meta=json.load(open(os.path.join(d,'meta.json')))
     run=[p for p in [pid]+EXTRA.get(pid,[]) if p in claimed]
     res={}; caught_by=[]
